@@ -1,13 +1,17 @@
 """C12 -- all geometry is covariant under translation of the coordinate origin.
 
-Every row runs ONE public entry point of the implementation twice: at origin o and at origin o + d (every
-coordinate-valued argument translated by d as well).  It yields
+Every row runs ONE public entry point of the implementation at origin o and at origin o + d (every coordinate-valued argument
+translated by d as well), and then once more at each origin on the SAME objects.  It yields
   * Coq cases `KPair d obs_at_o obs_at_o_plus_d`: [agree] = model and origin-free closed form equal the implementation's output at
     both origins; [spec_ok] = THE PROPERTY evaluated on the two implementation outputs (coordinate-valued results differ by
     exactly d, index-valued results are identical) -- so a change that keeps the property but moves the geometry is reported
     as a broken correspondence (no failing input), not as a violation;
   * py_ok: the same metamorphic relation, exactly (Fractions), over everything observed including results that have no Coq
-    case (values, neighbour tables, mapping matrices, extra grids of a dataset).
+    case (values, neighbour tables, mapping matrices, extra grids of a dataset, the frame each construction route delivered),
+    plus: the caller's inputs are intact after the calls, and a second evaluation on the same objects gives the same results.
+Histories (see "provenance and histories" below): the structures reach the entry point by different routes in the two runs
+(fresh / derived / copied / edited in place after reads / used before), configuration objects (OverSamplingUniform,
+OverSamplingDataset, image_mesh.Overlay, SimulatorImaging, the PSF, image_mesh.Hilbert) are SHARED by the two runs.
 All inputs are dyadic multiples of the pixel scale, so every double operation of the implementation is exact.
 """
 import random
@@ -24,21 +28,30 @@ COQ_IMPORTS = ""
 SHARD = 150
 EXHAUSTIVE = {}
 RULE = ("masks of shape 1x1..7x8 (mostly non-square; styles: random density 0.15-0.9, single pixel, ring with hole, full, two "
-        "components, outer-ring pixels, circular), pixel scales (py, px) in {1/4,1/2,1,3/2,2,3}^2 (often unequal), origin o = "
-        "(py*a/4, px*b/4) and translation d = (py*e/4, px*f/4), a,b,e,f in -12..12, d != 0 (sometimes o = 0); every entry point of "
-        "observe_at is run at o and o+d. Non-trivial = at least 2 unmasked pixels and o+d != 0; distinct = distinct JSON input.")
+        "components, outer-ring pixels, circular), pixel scales (py, px) in {1/4,1/2,1,3/2,2,3}^2 (often unequal), in 30% of the cases "
+        "times 2^e with e in {-30,-27,10,20} per axis (tiny and huge magnitudes, 40% of them with a different e per axis), origin o = "
+        "(py*a/4, px*b/4) and translation d = (py*e/4, px*f/4), a,b,e,f in -12..12, d != 0 (sometimes o = 0, sometimes one component "
+        "of d = 0); every entry point of observe_at is run at o and o+d, then AGAIN on the same objects. The mask / grid / array handed "
+        "to the entry point reaches it by a route chosen independently for the two runs: fresh, list input, resized_from, slice, "
+        "mask of an Array2D / Grid2D (also after arithmetic, native storage), copy / deepcopy / pickle, in-place edits after every "
+        "property was read, inverted, mask of a masked dataset, derive_mask.edge/border, already used; datasets fresh or derived; "
+        "12% of the cases under general.structures.native_binned_only=True, radial projections also with "
+        "general.grid.remove_projected_centre=True. Non-trivial = at least 2 unmasked pixels and o+d != 0; distinct = distinct JSON input.")
 TRUSTED = ["hand-written Gallina model coq/Model/C12.v (util layer + origin plumbing of every call site), tied to /repo by this run: "
            "exact rational comparison inside Coq (vm_compute) at both origins, plus the metamorphic relation on the implementation",
-           "edge/border index lists, blurring and resized masks are functions of the boolean mask array only (their values are taken "
-           "from the implementation and required to be identical at both origins); C10/C14 own their content",
-           "scipy.interpolate.griddata/interp1d (Hilbert image mesh) and scipy.spatial.Delaunay (MapperDelaunay) are oracles: only the "
-           "metamorphic relation is checked for them, with tolerance 1e-9",
-           "doubles: all generated values are dyadic multiples of the pixel scales so every operation is exact (cases whose "
-           "intermediate quotients are not dyadic are skipped and counted)"]
+           "blurring, resized and rescaled masks are functions of the boolean mask array only (their values are taken from the "
+           "implementation and required to be identical at both origins; C10/C14 own their content); edge/border index lists are "
+           "compared twice: as reported by the implementation and as computed by C10's model (coq/Model/C10.v)",
+           "scipy.interpolate.griddata/interp1d (Hilbert image mesh), scipy.spatial.Delaunay (MapperDelaunay) and scikit-image's rescale "
+           "(Mask2D.rescaled_from) are oracles: only the metamorphic relation is checked for what they compute",
+           "doubles: all generated values are dyadic multiples of the pixel scales (any power-of-two magnitude) so every operation is "
+           "exact (cases whose intermediate quotients are not dyadic are skipped and counted); tolerances, where unavoidable (sqrt, "
+           "mean, cos/sin), are 1e-9 RELATIVE to the pixel scale of each axis"]
 ASSUMPTIONS = ["real arithmetic (no rounding): theorems over R, correspondence on exactly representable inputs",
-               "radial projection is modelled at angle = 0 (arctan2(0, s) = 0 for s >= 0); other angles: metamorphic relation with tolerance",
+               "radial projection at a non-zero angle: the model takes the pair (cos theta, sin theta) that numpy computed (theta = "
+               "arctan2(0, s) - radians(angle) is the same double for every projected point since s >= 0)",
                "Hilbert mesh and Delaunay mapper: metamorphic relation on the implementation only (tolerance 1e-7 / 1e-9); border "
-               "relocation: model vs implementation and relation with tolerance 1e-9, decisions kept at an exact margin 1e-6"]
+               "relocation: model vs implementation and relation with tolerance 1e-9 (relative), decisions kept at an exact margin"]
 
 PS = [F(1, 4), F(1, 2), F(1), F(3, 2), F(2), F(3)]
 SKIPPED = {"inexact": 0}
@@ -281,7 +294,7 @@ def rand_frame(rng, zero_origin=False, scaled=True, same_exp=False):
 
 STYLES = ["random", "random", "random", "single", "ring", "full", "two", "interior"]
 GRID_OPS = ["from_mask", "dg_all_false", "dg_unmasked", "dg_edge", "dg_border", "blurring", "padded", "trimmed_array", "subtracted", "over", "sub_grid",
-            "resized", "centre", "extent", "zoom_unmasked", "zoomed_around", "zoom_props", "radial", "overlay",
+            "resized", "rescaled", "centre", "extent", "zoom_unmasked", "zoomed_around", "zoom_props", "radial", "overlay",
             "pixel_coords", "pixel_grids", "scaled_of_pixels", "rect_mapper",
             "ds_apply_mask", "ds_noise_scaling", "ds_over_sampling", "ds_trimmed", "ds_simulate", "ds_s2n"]
 
@@ -439,6 +452,15 @@ def op_blurring(aa, m, ps, o, dd, prm):
 def op_resized(aa, m, ps, o, dd, prm):
     mask = mk_mask(aa, m, ps, o)
     rm = mask.resized_from(new_shape=prm["shape"])
+    rml = [[bool(b) for b in r] for r in np.array(rm)]
+    g = grid_out(rm.derive_grid.unmasked)
+    return {"coq": [kgrid(f"(GDerived {cmask(rml)})", m, ps, o, g)], "rel": [("grid", g), ("inv", rml), ("geom", geom_of(rm))], "show": jg(g[:4])}
+
+def op_rescaled(aa, m, ps, o, dd, prm):
+    """Mask2D.rescaled_from (scikit-image's rescale is an oracle for the boolean array, which must not depend on the origin; the
+    frame of the returned mask and its grid are modelled: derive_mask with that array)"""
+    mask = mk_mask(aa, m, ps, o)
+    rm = mask.rescaled_from(rescale_factor=prm["factor"])
     rml = [[bool(b) for b in r] for r in np.array(rm)]
     g = grid_out(rm.derive_grid.unmasked)
     return {"coq": [kgrid(f"(GDerived {cmask(rml)})", m, ps, o, g)], "rel": [("grid", g), ("inv", rml), ("geom", geom_of(rm))], "show": jg(g[:4])}
@@ -681,6 +703,7 @@ def mk_imaging(aa, m, ps, o, rng_vals, psf=None, pre=0):
         data = aa.Array2D.no_mask(values=vals, **kw)
         noise = aa.Array2D.no_mask(values=np.full((H, W), 2.0), **kw)
     ds = aa.Imaging(data=data, noise_map=noise, psf=psf)
+    CTX["args"].append((data, np.array(data).copy(), mask_fp(data.mask)))       # the caller's arrays: geometry must survive every call
     if pre == 2:
         ds.grids.uniform; ds.grids.pixelization
         ds = ds.apply_mask(mask=aa.Mask2D.all_false(shape_native=(H, W), **kw))
@@ -768,7 +791,7 @@ OPS = {
     "dg_all_false": op_simple(lambda p: "GAllFalse", lambda aa, mask, p: mask.derive_grid.all_false),
     "dg_unmasked": op_simple(lambda p: "GFromMask", lambda aa, mask, p: mask.derive_grid.unmasked),
     "dg_edge": op_sel("edge"), "dg_border": op_sel("border"),
-    "blurring": op_blurring, "padded": op_padded, "trimmed_array": op_trimmed_array, "subtracted": op_subtracted, "over": op_over("over"), "sub_grid": op_over("sub_grid"), "resized": op_resized,
+    "blurring": op_blurring, "padded": op_padded, "trimmed_array": op_trimmed_array, "subtracted": op_subtracted, "over": op_over("over"), "sub_grid": op_over("sub_grid"), "resized": op_resized, "rescaled": op_rescaled,
     "centre": op_centre, "extent": op_extent, "zoom_unmasked": op_zoom_unmasked, "zoomed_around": op_zoomed_around,
     "zoom_props": op_zoom_props, "radial": op_radial, "overlay": op_overlay, "pixel_coords": op_pixel_coords,
     "pixel_grids": op_pixel_grids, "scaled_of_pixels": op_scaled_of_pixels, "rect_mapper": op_rect_mapper,
@@ -801,6 +824,7 @@ PARAMS = {
     "over": lambda rng, m, ps: over_params(rng, m, ps),
     "sub_grid": lambda rng, m, ps: over_params(rng, m, ps),
     "resized": lambda rng, m, ps: {"shape": (rng.randint(1, 9), rng.randint(1, 9))},
+    "rescaled": lambda rng, m, ps: {"factor": rng.choice([2.0, 2.0, 0.5, 1.5, 3.0])},
     "zoomed_around": lambda rng, m, ps: {"buffer": rng.choice([0, 1, 1, 2])},
     "radial": lambda rng, m, ps: {"c_rel": (ps[0] * F(rng.randint(-8, 8), 4), ps[1] * F(rng.randint(-8, 8), 4)) if rng.random() < 0.8 else (F(0), F(0)),
                                   "shape_slim": rng.choice([0, 0, 0, 3, 5]), "remove": rng.choice([True, False, False, None, None])},
@@ -875,7 +899,8 @@ def sp_hilbert_mesh(aa, inp, ps, o, d, rng):
         # square cell (a masked image, zero outside the circle, would make the oracle's tie-breaking visible)
         img = aa.Array2D.no_mask(values=np.array([[ca * y + cb * x + cc for x in range(n)] for y in range(n)], dtype=float),
                                  pixel_scales=mask.pixel_scales, origin=mask.origin)
-        g = aa.image_mesh.Hilbert(pixels=pixels, weight_power=power, weight_floor=floor).image_plane_mesh_grid_from(mask=mask, adapt_data=img)
+        hm = SHARED.setdefault("hilbert", aa.image_mesh.Hilbert(pixels=pixels, weight_power=power, weight_floor=floor))    # one object, both origins
+        g = hm.image_plane_mesh_grid_from(mask=mask, adapt_data=img)
         out.append(np.asarray(g, dtype=float))
     ok = close_grids(out[0], out[1], d, 1e-7, ps)
     return {"coq": None, "py_ok": ok, "kind": "hilbert_mesh", "nontrivial": True,
